@@ -1428,6 +1428,9 @@ func (e *enc) loopHead(li *loopInfo, st *State) {
 					}
 				case *ssa.UnOp:
 					if x.Op == token.ARROW {
+						if cell, ok := e.sentCounters["<-"+e.valText(x.X)]; ok {
+							st.cells[cell] = e.fresh(cell+"_"+tag, "Int")
+						}
 						for _, cl := range e.c.calls["recv:"+e.valText(x.X)] {
 							if cl.kind == "flag" {
 								hv(cl.name)
@@ -1438,6 +1441,9 @@ func (e *enc) loopHead(li *loopInfo, st *State) {
 					for _, s := range x.States {
 						name := e.valText(s.Chan)
 						if s.Dir == types.RecvOnly {
+							if cell, ok := e.sentCounters["<-"+name]; ok {
+								st.cells[cell] = e.fresh(cell+"_"+tag, "Int")
+							}
 							for _, cl := range e.c.calls["recv:"+name] {
 								if cl.kind == "flag" {
 									hv(cl.name)
@@ -1621,7 +1627,7 @@ func (e *enc) exit() {
 // The channel is named as in "send <chan>#k" clauses. The counter is 0 at entry, goes up by one at every send
 // on that channel (in a select: when that case is the one taken) and is forgotten at the head of every loop
 // that sends on it, like any other cell the loop writes. Counters exist for the names the contract mentions.
-var reSent = regexp.MustCompile(`\bsent\(([\w.]+)\)`)
+var reSent = regexp.MustCompile(`\b(sent|rcvd)\(([\w.]+)\)`)
 
 func (e *enc) registerSentCounters() {
 	e.sentCounters = map[string]string{}
@@ -1630,11 +1636,14 @@ func (e *enc) registerSentCounters() {
 	}
 	scan := func(text string) {
 		for _, m := range reSent.FindAllStringSubmatch(text, -1) {
-			name := m[1]
+			name := m[2]
+			if m[1] == "rcvd" {
+				name = "<-" + name
+			}
 			if _, ok := e.sentCounters[name]; ok {
 				continue
 			}
-			cell := "G_sent_" + sanitize(name)
+			cell := "G_" + m[1] + "_" + sanitize(m[2])
 			e.sentCounters[name] = cell
 			e.cellSortOf[cell] = "Int"
 			e.declare(cell+"_0", "Int")
@@ -1663,8 +1672,17 @@ func (e *enc) registerSentCounters() {
 }
 
 // countSend: cond == "" for a plain send, else the condition under which the send happens (select case taken).
+// countRecv: the same for values received (rcvd(<chan>)); kept under the name "<-chan" in the same table.
+func (e *enc) countRecv(st *State, ch ssa.Value, cond string) {
+	e.countChan(st, "<-"+e.valText(ch), cond)
+}
+
 func (e *enc) countSend(st *State, ch ssa.Value, cond string) {
-	cell, ok := e.sentCounters[e.valText(ch)]
+	e.countChan(st, e.valText(ch), cond)
+}
+
+func (e *enc) countChan(st *State, name string, cond string) {
+	cell, ok := e.sentCounters[name]
 	if !ok {
 		return
 	}
